@@ -42,7 +42,9 @@ fn plant_env(side: &mut Vec<El>, r: &mut Rng, p: &str, before: bool) {
 fn gen(r: &mut Rng) -> Case {
     let rule = rand_rule(r, &RuleCfg::default());
     let planted = plant(&rule, r);
-    Case { rule: plain(&planted), unplanted: plain(&rule), word: rand_word(r, &WordCfg::default()) }
+    // a quarter of the words are built from recurring syllables, so that inputs with back-references (`%=1 1`, `C=1 V 1`) match
+    let word = if r.chance(1, 4) { rand_echo_word(r, &WordCfg::default()) } else { rand_word(r, &WordCfg::default()) };
+    Case { rule: plain(&planted), unplanted: plain(&rule), word }
 }
 
 pub fn judge(rep: &mut Report, c: &Case) {
